@@ -564,6 +564,50 @@ def _globals(run, P):
                                        why="a shared mutable object stored un-copied in "
                                            "instance state is mutated by every generator "
                                            "object and inherited by later ones")
+    # (5) objects created when a module is loaded live as long as the process: the methods
+    # of their classes must not change them
+    for m in P.repo_modules():
+        singles = {}
+        for name, v in m.assigns.items():
+            if isinstance(v, ast.Call):
+                try:
+                    t_ = P.resolve_expr(m, v.func) if hasattr(P, "resolve_expr") else None
+                except Exception:
+                    t_ = None
+                if t_ is None and isinstance(v.func, ast.Name) and v.func.id in m.classes:
+                    t_ = m.classes[v.func.id]
+                if isinstance(t_, Class) and not t_.module.trusted:
+                    singles.setdefault(t_, []).append(name)
+        for c, names in sorted(singles.items(), key=lambda kv: kv[0].fq):
+            mutated = []
+            for k in [c] + [b for b in P.mro(c)[1:] if not b.module.trusted]:
+                for mname, meth in sorted(k.methods.items()):
+                    if mname == "__init__":
+                        continue
+                    for x in ast.walk(meth.node):
+                        if isinstance(x, (ast.Assign, ast.AugAssign, ast.Delete)):
+                            tg = x.targets if isinstance(x, (ast.Assign, ast.Delete)) else [x.target]
+                            for t in tg:
+                                base = t.value if isinstance(t, ast.Subscript) else t
+                                d = dotted(base)
+                                if d and d.startswith("self.") and isinstance(t, (ast.Attribute, ast.Subscript)):
+                                    mutated.append((meth, x))
+                        if isinstance(x, ast.Call) and isinstance(x.func, ast.Attribute) \
+                                and x.func.attr in MUTATORS:
+                            d = dotted(x.func.value)
+                            if d and d.startswith("self.") and d.count(".") == 1:
+                                mutated.append((meth, x))
+            n += 1
+            run.ob("C15.global", mutated[0][0] if mutated else c, mutated[0][1] if mutated else None,
+                   not mutated,
+                   construct=f"{c.name} (module-level instances {sorted(names)[:3]}"
+                             f"{'...' if len(names) > 3 else ''}) is not changed by its methods"
+                             + (f" (found {norm(mutated[0][1], 50)} in {mutated[0][0].name})"
+                                if mutated else ""),
+                   why="an object that lives in a module (the code templates of the built-ins in "
+                       "the base registry) is shared by every generator object of the process: "
+                       "what one generator leaves on it - a cache of rendered text that skips "
+                       "the declarations rendering makes - changes what the next one emits")
     if n < 1:
         raise AnalysisError("C15.global: no candidate site examined")
     # always record the scan itself
@@ -654,4 +698,7 @@ def _alias_feeds(P, c: Class, meth: Func, pname):
 def check(run, P):
     run.do(_check_main, run, P)
     from . import generic
-    generic.lints(run, P, "C15")
+    # everything text or names pass through on their way into the generated source
+    generic.lints(run, P, "C15", extra_files=(
+        "dagrt/codegen/utils.py", "dagrt/codegen/expressions.py", "dagrt/codegen/codegen_base.py",
+        "dagrt/utils.py", "dagrt/data.py", "dagrt/function_registry.py", "dagrt/transform.py"))
